@@ -141,12 +141,17 @@ Behaviour(pr, ac, end, tl) ==
         nf == SetToSortSeq(NestFill, LAMBDA x, y : x < y)
         touch == [i \in 1..Len(nf) |-> Op(2, "put", Append(Path, nf[i]), 1, 2)]
         r2 == Run(r1.tree, TRUE, touch \o ActOps(2, ac) \o TailOps(2, tl), <<>>)
+        \* "droprerun": the transaction is abandoned, then the same operations are run again in a
+        \* new transaction and committed -- it must behave as if the first had never existed (C06)
+        r2b == Run(r1.tree, TRUE, [i \in 1..Len(touch \o ActOps(2, ac) \o TailOps(2, tl)) |->
+                                      [(touch \o ActOps(2, ac) \o TailOps(2, tl))[i] EXCEPT !.t = 4]], <<>>)
         final == IF end = "drop" THEN r1.tree ELSE r2.tree
         r3 == Run(final, FALSE, ProjOps(3, final), <<>>)
     IN  <<Begin_(1, TRUE)>> \o r1.steps \o <<End_("commit", 1), [a |-> "check"]>>
         \o <<Begin_(2, TRUE)>> \o r2.steps \o AllQueries(2, r2.tree)
         \o (CASE end = "commit" -> <<End_("commit", 2), [a |-> "check"]>>
               [] end = "drop"   -> <<End_("drop", 2)>>
+              [] end = "droprerun" -> <<End_("drop", 2), Begin_(4, TRUE)>> \o r2b.steps \o <<End_("commit", 4), [a |-> "check"]>>
               [] OTHER          -> <<End_("commit", 2), [a |-> "reopen"], [a |-> "check"]>>)
         \o <<Begin_(3, FALSE)>> \o r3.steps \o AllQueries(3, final) \o <<End_("drop", 3)>>
 
